@@ -24,7 +24,11 @@ U = 'Scalibr.Upgrade.'
 O = 'Scalibr.Override.'
 R = 'Scalibr.Relax.'
 S = 'Scalibr.Suggest.'
-THEOREMS = [U + 'C11_allows_table', U + 'C11_allows_meaning', O + 'C11_override_step', O + 'C11_cumulative', O + 'C11_terminates', O + 'C11_terminates_bound',
+M = 'Scalibr.OverrideMulti.'
+THEOREMS = [U + 'C11_allows_table', U + 'C11_allows_meaning', U + 'C11_rank_exists_iff', U + 'C11_rank_is_order_partial', U + 'C11_no_rank_of_cycle',
+            O + 'C11_override_step', O + 'C11_override_upward_partial', O + 'C11_override_unsorted_witness', O + 'C11_override_equal_version_witness',
+            O + 'C11_cumulative_partial', O + 'C11_terminates_partial', O + 'C11_terminates_bound_partial',
+            M + 'C11_terminates_multi_partial', M + 'C11_terminates_multi_bound_partial', M + 'C11_cumulative_multi_partial',
             O + 'C11_none_untouched_override', 'Scalibr.OverrideMulti.C11_override_multi_step', 'Scalibr.OverrideMulti.C11_none_untouched_multi', 'Scalibr.OverrideMulti.C11_override_pin_overtaken_witness', R + 'C11_relax_step', R + 'C11_none_untouched_relax', S + 'C11_update_step', S + 'C11_update_no_current', S + 'C11_update_reported', S + 'C11_update_patch',
             S + 'C11_none_untouched_update', S + 'C11_update_fixed_witnesses']
 
@@ -99,7 +103,7 @@ def run(ctx):
             return 'the real code panicked'
         if op == 'rx':
             if r[:1] in ('t', 'c') and r[1:].isdigit():
-                if not bit(fm.get('okset'), int(r[1:])):
+                if not bit(fm.get('spec'), int(r[1:])):
                     return 'Relax built the requirement from version #%s, which is not strictly above the highest matching version #%s with an allowed difference' % (r[1:], fm.get('last'))
             elif r != 'fail':
                 return 'Relax: ' + r
@@ -108,14 +112,14 @@ def run(ctx):
                 return 'override loop: ' + r
             if fi.get('req') != fi.get('final'):
                 return 'HonoursPins observed false: requirement #%s, resolved #%s' % (fi.get('req'), fi.get('final'))
-            if fm.get('laws') == '1' and not bit(fm.get('okset'), int(fi.get('final', '-1'))):
+            if fm.get('laws') == '1' and not bit(fm.get('spec'), int(fi.get('final', '-1'))):
                 return 'override ended at version #%s: not the base and not strictly above it with an allowed difference to the base' % fi.get('final')
             if fm.get('laws') != '1' and int(fi.get('final', '-1')) < int(case.split(' | ')[1].split(' ')[1]):
                 return 'override ended below the base'
         elif op == 'up':
             if r != 'ok':
                 return 'Update on a whole pom: ' + r
-            oks = fm.get('oks', '').split(';')
+            oks = fm.get('spec', '').split(';')
             # every reported update is judged against ITS OWN requirement (okset of that requirement)
             if fi.get('ups', '-') != '-':
                 for u in fi['ups'].split(','):
@@ -131,6 +135,8 @@ def run(ctx):
         elif op == 'mo':
             if r != 'ok':
                 return 'override loop (several packages): ' + r
+            if fm.get('done') != '1':
+                return 'the model of the override loop ran out of fuel (C11_terminates_multi_bound_partial says it cannot)'
             tb = case.split(' | ')[1].split(' ')
             pins0 = tb[2].split('.')
             pins = fi.get('pins', '-.-.-').split('.')
@@ -157,7 +163,7 @@ def run(ctx):
         elif op == 'sg' and level != '3':        # Suggest never calls the function for level None
             if r.startswith('update:'):
                 i = r.split(':')[1]
-                if not i.isdigit() or not bit(fm.get('okset'), int(i)):
+                if not i.isdigit() or not bit(fm.get('spec'), int(i)):
                     return 'suggestMavenVersion proposed version #%s: not strictly above current with an allowed difference' % i
             elif r not in ('keep', 'err'):
                 return 'suggestMavenVersion: ' + r
